@@ -148,6 +148,17 @@ def summarise(x, maxlist=14, maxstr=200):
     return x
 
 
+def _finite(x):
+    """strict-JSON safe copy (NaN / inf rendered as strings)."""
+    if isinstance(x, dict):
+        return {k: _finite(v) for k, v in x.items()}
+    if isinstance(x, list):
+        return [_finite(v) for v in x]
+    if isinstance(x, float) and (math.isnan(x) or math.isinf(x)):
+        return repr(x)
+    return x
+
+
 # --------------------------------------------------------------------------- shard state
 
 
@@ -330,7 +341,7 @@ def load_replay(path):
 
 
 def write_replay(check_id, name, doc):
-    d = os.path.join(VERIF, "replays", "found", check_id)
+    d = os.path.join(os.environ.get("VERIF_FOUND_DIR") or os.path.join(VERIF, "replays", "found"), check_id)
     os.makedirs(d, exist_ok=True)
     p = os.path.join(d, name + ".json")
     with open(p, "w") as fh:
@@ -509,9 +520,12 @@ def _main(a, seed):
         "wall_s": round(wall, 2),
         "violations": len(violations),
     }
-    os.makedirs(os.path.join(VERIF, "evidence"), exist_ok=True)
-    with open(os.path.join(VERIF, "evidence", f"{pid}.json"), "w") as fh:
-        json.dump(ev, fh, indent=1, default=repr)
+    evdir = os.environ.get("VERIF_EVIDENCE_DIR") or os.path.join(VERIF, "evidence")
+    os.makedirs(evdir, exist_ok=True)
+    tmp = os.path.join(evdir, f".{pid}.{os.getpid()}.tmp")
+    with open(tmp, "w") as fh:
+        json.dump(_finite(ev), fh, indent=1, default=repr, allow_nan=False)
+    os.replace(tmp, os.path.join(evdir, f"{pid}.json"))
 
     for line in sorted(set(known_lines)):
         print(line)
